@@ -234,6 +234,12 @@ func (r *reader) Clone(sr *io.SectionReader) (metadata.Reader, error) {
 	if err != nil {
 		return nil, err
 	}
+	// The cloned reader parses the TOC of sr again. Chunk offsets and digests that the
+	// clone provides come from that TOC so it must be the same TOC as the original one
+	// (which might have been verified).
+	if got, want := er.TOCDigest(), r.r.TOCDigest(); got != want {
+		return nil, fmt.Errorf("TOC of the cloned source differs from the original: %q != %q", got, want)
+	}
 
 	return newReader(er, r.rootID, r.idMap, r.idOfEntry, r.estargzOpts), nil
 }
